@@ -78,12 +78,14 @@ func (s *State) mapArr(name string, sort Sort) *Term {
 	return t
 }
 
-func (m *mapModel) domName() string       { return "mapDom:" + m.name }
-func (m *mapModel) lenName() string       { return "mapLen:" + m.name }
-func (m *mapModel) valName(i int) string  { return fmt.Sprintf("mapVal:%s:%d", m.name, i) }
-func (m *mapModel) domSort() Sort         { return ArraySort(SInt, ArraySort(m.keySort, SBool)) }
-func (m *mapModel) lenSort() Sort         { return ArraySort(SInt, SInt) }
-func (m *mapModel) valSort(i int) Sort    { return ArraySort(SInt, ArraySort(m.keySort, m.valLay[i].K.Sort())) }
+func (m *mapModel) domName() string      { return "mapDom:" + m.name }
+func (m *mapModel) lenName() string      { return "mapLen:" + m.name }
+func (m *mapModel) valName(i int) string { return fmt.Sprintf("mapVal:%s:%d", m.name, i) }
+func (m *mapModel) domSort() Sort        { return ArraySort(SInt, ArraySort(m.keySort, SBool)) }
+func (m *mapModel) lenSort() Sort        { return ArraySort(SInt, SInt) }
+func (m *mapModel) valSort(i int) Sort {
+	return ArraySort(SInt, ArraySort(m.keySort, m.valLay[i].K.Sort()))
+}
 
 func (v *Verifier) mapDom(st *State, mt *types.Map, ref *Term) *Term {
 	m := v.e.mapModelOf(mt)
@@ -180,6 +182,7 @@ func (v *Verifier) doMapUpdate(st *State, mu *ssa.MapUpdate) {
 	v.escapeValue(st, val)
 	v.oblige(st, "mapwrite", "assignment to "+describe(mu.Map), Neq(x.L[0], IntLit(0)), mu.Pos(), nil)
 	st.assume(Neq(x.L[0], IntLit(0)))
+	v.checkMapFrame(st, x.L[0], mt, mu.Pos(), describe(mu.Map))
 	v.mapSet(st, mt, x.L[0], key, val)
 }
 
